@@ -1,0 +1,36 @@
+//! Verification hook (compiled only with `--cfg grafeo_verif`): an event log of what the WAL
+//! manager did to its files. Events are emitted while the `active_log` mutex is held, after the
+//! step they describe, so their order is the order of the file operations.
+
+use parking_lot::Mutex;
+use std::sync::atomic::{AtomicBool, Ordering};
+
+/// One step of the WAL manager.
+#[derive(Debug, Clone)]
+pub struct WalEvent {
+    /// `append` | `flush` | `fsync` | `rotate` | `meta_tmp` | `meta_rename` | `remove`
+    pub kind: &'static str,
+    /// Log file sequence number the step applies to.
+    pub seq: u64,
+    /// Logical length of that file (bytes appended so far) after the step.
+    pub len: u64,
+}
+
+static ENABLED: AtomicBool = AtomicBool::new(false);
+static EVENTS: Mutex<Vec<WalEvent>> = Mutex::new(Vec::new());
+
+/// Turns recording on or off (off by default).
+pub fn enable(on: bool) {
+    ENABLED.store(on, Ordering::SeqCst);
+}
+
+/// Returns and clears the recorded events.
+pub fn take() -> Vec<WalEvent> {
+    std::mem::take(&mut *EVENTS.lock())
+}
+
+pub(crate) fn emit(kind: &'static str, seq: u64, len: u64) {
+    if ENABLED.load(Ordering::Relaxed) {
+        EVENTS.lock().push(WalEvent { kind, seq, len });
+    }
+}
